@@ -512,6 +512,16 @@ class HyperscanTokenizer(Tokenizer):
         matches = []
 
         def on_match(index, start, end, flags, context):
+            # A byte-level character class such as [^a-zA-Z0-9] consumes a
+            # single byte, so next to a multi-byte character a hit starts at
+            # that character's last byte or ends after its first byte. Widen
+            # the hit to whole characters; it is re-validated below.
+            while 0 < start < len(text_bytes) and (
+                text_bytes[start] & 0xC0 == 0x80
+            ):
+                start -= 1
+            while end < len(text_bytes) and text_bytes[end] & 0xC0 == 0x80:
+                end += 1
             matches.append((self.extractors[index], (start, end)))
 
         self.hyperscan_db.scan(text_bytes, match_event_handler=on_match)
